@@ -23,6 +23,7 @@ KEEP_NAMES = {
     "SDJWTCommon::parse_compact_sd_jwt", "SDJWTCommon::parse_json_sd_jwt",
 }
 KEEP_SUFFIXES = ("::finalize_input", "::next_level", "::sd_for_key")
+ROLE_ANCHOR_RET = ("disclosure::SDJWTDisclosure",)
 MAX_CALLEE_BLOCKS = 400
 MAX_VIEW_BLOCKS = 2500
 MAX_DEPTH = 6
@@ -180,6 +181,8 @@ def inlinable(name, f, recursive):
         return False  # public API entry points are anchors themselves
     if f.get("kind") == "closure":
         return False
+    if (f.get("ret_ty") or "") in ROLE_ANCHOR_RET:
+        return False  # a constructor of an anchored type (whatever its name): call sites of it are what the rules look for
     if f.get("def_exp"):
         return False  # derive / macro generated bodies stay calls
     if name in recursive:
@@ -392,6 +395,19 @@ def _thread_result(f, call, region, retloc, hname, max_tail=None, goto_only=Fals
     sw = blocks[sw_id]["term"]
     is_result = retty.startswith("std::result::Result<")
     is_option = retty.startswith("std::option::Option<")
+    if not (is_result or is_option or kind == "bool") and (retty in ("?", "") or retty is None):
+        # a synthesized local of unrecorded type: take the type from the literals assigned to it
+        adts_ = set()
+        for bl_ in blocks:
+            if bl_["cleanup"]:
+                continue
+            for st_ in bl_["stmts"]:
+                if st_["k"] == "assign" and not st_["place"]["proj"] and st_["place"]["local"] == site_loc and isinstance(st_.get("rv"), dict) and "aggregate" in st_["rv"]:
+                    adts_.add(st_["rv"]["aggregate"].get("adt"))
+        if adts_ == {"std::option::Option"}:
+            is_option = True
+        elif adts_ == {"std::result::Result"}:
+            is_result = True
     if not (is_result or is_option or kind == "bool"):
         return
     # discriminant value -> arm; for `branch`: ControlFlow Continue=0 / Break=1; direct: Result Ok=0 Err=1, Option None=0 Some=1
@@ -624,6 +640,182 @@ def _canon_collect_value(f, bid):
     return True
 
 
+def _fold_not_switches(f):
+    """S: switchInt(move L) with L: bool defined exactly once as `L = Not(move M)` in S itself or in S's only live predecessor (a goto block),
+    L used nowhere else: rewritten to switch on M with the two arms exchanged (M keeps its value: it is not assigned in between)"""
+    blocks = f["blocks"]
+    live = _live_blocks(f)
+    n = 0
+    for S in blocks:
+        t = S["term"]
+        if S["cleanup"] or S["id"] not in live or t["k"] != "switch":
+            continue
+        dp = t["discr"].get("move") or t["discr"].get("copy")
+        if not dp or dp["proj"] or f["locals"][dp["local"]]["ty"] != "bool":
+            continue
+        L = dp["local"]
+        if len(t["targets"]) != 1 or t["targets"][0][0] != 0:
+            continue
+        defs = [(b["id"], i, st) for b in blocks if not b["cleanup"] for i, st in enumerate(b["stmts"]) if st["k"] == "assign" and st["place"]["local"] == L]
+        if len(defs) != 1 or any(b["term"]["k"] == "call" and b["term"]["dest"]["local"] == L for b in blocks if not b["cleanup"]):
+            continue
+        (db, di, dst) = defs[0]
+        rv = dst.get("rv") if isinstance(dst.get("rv"), dict) else {}
+        if dst["place"]["proj"] or rv.get("unop") != "Not":
+            continue
+        mp = (rv.get("op") or {}).get("move") or (rv.get("op") or {}).get("copy")
+        if not mp or mp["proj"]:
+            continue
+        M = mp["local"]
+        if db == S["id"]:
+            later = S["stmts"][di + 1:]
+        else:
+            preds = [b["id"] for b in blocks if not b["cleanup"] and b["id"] in live and S["id"] in _succs(b["term"])]
+            if preds != [db] or blocks[db]["term"]["k"] != "goto":
+                continue
+            later = blocks[db]["stmts"][di + 1:] + S["stmts"]
+        if any(st["k"] == "assign" and st["place"]["local"] == M for st in later):
+            continue
+        if _local_uses(f, L) > 2:
+            continue
+        false_t, true_t = t["targets"][0][1], t["otherwise"]
+        S["term"] = dict(t, discr={"copy": {"local": M, "proj": []}}, targets=[[0, true_t]], otherwise=false_t, folded_not=True)
+        n += 1
+    return n
+
+
+def _canon_extend_option(f, bid):
+    """`vec.extend(opt)` with opt: Option<T> is `if let Some(x) = opt { vec.push(x) }`: written that way in the view"""
+    b = f["blocks"][bid]
+    t = b["term"]
+    if b["cleanup"] or t["k"] != "call" or t.get("name") != "extend" or t.get("trait") != "std::iter::Extend" or t.get("target") is None or len(t["args"]) != 2:
+        return False
+    if t.get("self_adt") != "std::vec::Vec" or not (t.get("gargs") or []) or not (t["gargs"][-1] or "").startswith("std::option::Option<"):
+        return False
+    op = t["args"][1].get("move")
+    if not op or op["proj"]:
+        return False
+    line = t.get("line")
+    x = op["local"]
+    d = _new_local(f, "isize", "extend-option-discr")
+    v = _new_local(f, t["gargs"][-1][len("std::option::Option<"):-1], "extend-option-payload")
+    mk = lambda place, rv: {"k": "assign", "place": place, "rv": rv, "line": line, "exp": None, "synth": True}
+    pl = lambda l, proj=(): {"local": l, "proj": list(proj)}
+    push = {"k": "call", "unwind": t.get("unwind"), "line": line, "exp": None, "synth": True, "gargs": [], "callee_local": False, "resolved_local": False, "instance_kind": "Item",
+            "ret_never": False, "callee": "std::vec::Vec::<T, A>::push", "name": "push", "trait": None, "self_ty": t.get("self_ty"), "self_adt": "std::vec::Vec",
+            "resolved": "std::vec::Vec::<T, A>::push", "callee_crate": "alloc", "resolved_crate": "alloc", "args": [t["args"][0], {"move": pl(v)}], "dest": dict(t["dest"]), "target": t["target"]}
+    b_some = _new_block(f, [mk(pl(v), {"use": {"move": pl(x, [{"k": "downcast", "variant": "Some", "idx": 1}, {"k": "field", "idx": 0, "name": "0", "adt": "std::option::Option"}])}})], push, "extend-option-some")
+    b["stmts"] = list(b["stmts"]) + [mk(pl(d), {"discriminant": pl(x)})]
+    b["desugared_call"] = t
+    b["term"] = {"k": "switch", "discr": {"move": pl(d)}, "targets": [[1, b_some]], "otherwise": t["target"], "line": line, "exp": "desugar:ExtendOption"}
+    return True
+
+
+def _canon_extend_array(f, bid):
+    """`map.extend([(k1, v1), (k2, v2)])` with an array literal of pairs is `map.insert(k1, v1); map.insert(k2, v2)`: written that way in the view"""
+    b = f["blocks"][bid]
+    t = b["term"]
+    if b["cleanup"] or t["k"] != "call" or t.get("name") != "extend" or t.get("trait") != "std::iter::Extend" or t.get("target") is None or len(t["args"]) != 2:
+        return False
+    if t.get("self_adt") not in ("std::collections::HashMap", "serde_json::Map", "std::collections::BTreeMap", "indexmap::IndexMap"):
+        return False
+    ga = t.get("gargs") or []
+    if not ga or not re.match(r"^\[\(.*\); \d+\]$", ga[-1] or ""):
+        return False
+    ap = t["args"][1].get("move")
+    rp = t["args"][0].get("move")
+    if not ap or ap["proj"] or not rp or rp["proj"]:
+        return False
+
+    def unique_def(local):
+        ds = [st for bb in f["blocks"] if not bb["cleanup"] for st in bb["stmts"] if st["k"] == "assign" and st["place"]["local"] == local and not st["place"]["proj"]]
+        return ds[0] if len(ds) == 1 else None
+    ad = unique_def(ap["local"])
+    if ad is None or not isinstance(ad.get("rv"), dict) or (ad["rv"].get("aggregate") or {}).get("kind") != "array":
+        return False
+    pairs = []
+    for o in ad["rv"]["ops"]:
+        op = o.get("move") if isinstance(o, dict) else None
+        if not op or op["proj"]:
+            return False
+        td = unique_def(op["local"])
+        if td is None or not isinstance(td.get("rv"), dict) or (td["rv"].get("aggregate") or {}).get("kind") != "tuple" or len(td["rv"]["ops"]) != 2:
+            return False
+        pairs.append(op["local"])
+    if not pairs:
+        return False
+    line = t.get("line")
+    mk = lambda place, rv: {"k": "assign", "place": place, "rv": rv, "line": line, "exp": None, "synth": True}
+    pl = lambda l, proj=(): {"local": l, "proj": list(proj)}
+    fld = lambda i: [{"k": "field", "idx": i, "name": str(i), "adt": None}]
+    rty = f["locals"][rp["local"]]["ty"]
+    base = {"k": "call", "unwind": t.get("unwind"), "line": line, "exp": None, "synth": True, "gargs": [], "callee_local": False, "resolved_local": False, "instance_kind": "Item",
+            "ret_never": False, "callee": "%s::<K, V, S, A>::insert" % t["self_adt"], "name": "insert", "trait": None, "self_ty": t.get("self_ty"), "self_adt": t["self_adt"],
+            "resolved": "%s::<K, V, S, A>::insert" % t["self_adt"], "callee_crate": "std", "resolved_crate": "std"}
+    nxt = t["target"]
+    first = None
+    for tl in reversed(pairs):
+        r = _new_local(f, rty, "extend-array-ref")
+        o = _new_local(f, "?", "extend-array-old")
+        call = dict(base, args=[{"move": pl(r)}, {"move": pl(tl, fld(0))}, {"move": pl(tl, fld(1))}], dest=pl(o), target=nxt)
+        nb = _new_block(f, [mk(pl(r), {"ref": pl(rp["local"], [{"k": "deref"}]), "mut": True})], call, "extend-array-insert")
+        nxt = nb
+        first = nb
+    b["desugared_call"] = t
+    b["term"] = {"k": "goto", "target": first, "line": line, "exp": "desugar:ExtendArray"}
+    return True
+
+
+def _canon_repeat_with_take(f, bid):
+    """`std::iter::repeat_with(C).take(n)` yields C() n times: `(0..n).map(|_| C())`, written that way in the view (a Range source and a
+    map stage whose closure takes no item), so that the pipeline rewriting below turns `vec.extend(..)` / `.collect()` of it into the counted loop"""
+    blocks = f["blocks"]
+    A = blocks[bid]
+    t = A["term"]
+    if A["cleanup"] or t["k"] != "call" or not (t.get("callee") or "").startswith("std::iter::repeat_with") or t.get("target") is None or len(t["args"]) != 1 or t["dest"]["proj"]:
+        return False
+    r = t["dest"]["local"]
+    cur = t["target"]
+    B = None
+    for _ in range(4):
+        cb = blocks[cur]
+        ct = cb["term"]
+        if ct["k"] == "call" and ct.get("name") == "take" and ct.get("trait") == "std::iter::Iterator" and len(ct["args"]) == 2:
+            a0 = ct["args"][0].get("move")
+            src_ = a0["local"] if a0 and not a0["proj"] else None
+            for st_ in reversed(cb["stmts"]):
+                if src_ is not None and st_["k"] == "assign" and not st_["place"]["proj"] and st_["place"]["local"] == src_ and isinstance(st_.get("rv"), dict) and isinstance(st_["rv"].get("use"), dict):
+                    mp_ = st_["rv"]["use"].get("move") or st_["rv"]["use"].get("copy")
+                    if mp_ and not mp_["proj"]:
+                        src_ = mp_["local"]
+            if src_ == r:
+                B = cb
+            break
+        if ct["k"] == "goto":
+            cur = ct["target"]
+        elif ct["k"] == "call" and ct.get("target") is not None and ct["dest"]["local"] != r:
+            cur = ct["target"]
+        else:
+            break
+    if B is None or B["term"].get("target") is None or B["term"]["dest"]["proj"]:
+        return False
+    line = t.get("line")
+    mk = lambda place, rv: {"k": "assign", "place": place, "rv": rv, "line": line, "exp": None, "synth": True}
+    pl = lambda l, proj=(): {"local": l, "proj": list(proj)}
+    bt = B["term"]
+    rng = _new_local(f, "std::ops::Range<usize>", "repeat-with-range")
+    A["desugared_call"] = t
+    A["term"] = {"k": "goto", "target": t["target"], "line": line, "exp": "desugar:RepeatWith"}
+    B["stmts"] = list(B["stmts"]) + [mk(pl(rng), {"aggregate": {"kind": "adt", "adt": "std::ops::Range", "variant": None, "idx": 0, "fields": ["start", "end"]},
+                                                  "ops": [{"const": {"ty": "usize", "value": {"int": 0}}}, bt["args"][1]]})]
+    B["desugared_call"] = bt
+    B["term"] = {"k": "call", "callee": "std::iter::Iterator::map", "name": "map", "resolved": "<std::ops::Range<usize> as std::iter::Iterator>::map", "trait": "std::iter::Iterator",
+                 "self_ty": "std::ops::Range<usize>", "self_adt": "std::ops::Range", "gargs": [], "args": [{"move": pl(rng)}, t["args"][0]], "dest": dict(bt["dest"]), "target": bt["target"],
+                 "unwind": bt.get("unwind"), "line": line, "exp": None, "synth": True, "callee_local": False, "resolved_local": False, "callee_crate": "core", "resolved_crate": "core",
+                 "instance_kind": "Item", "ret_never": False, "nullary_mapper": True}
+    return True
+
+
 def _live_blocks(f):
     """ids of the blocks reachable from the entry (threading leaves the unthreaded originals behind, often unreachable)"""
     blocks = f["blocks"]
@@ -666,6 +858,20 @@ def _nested_arm(f, arm, pay, hname):
     blocks = f["blocks"]
     ab = blocks[arm]
     t = ab["term"]
+    if not ab["cleanup"] and t["k"] == "goto" and len(ab["stmts"]) <= 3:
+        # the arm moves the payload and jumps to the block that re-dispatches on it (a pipeline's `Some(r) => match r {..}` stage): fuse the
+        # two into one copy and treat that
+        nx = blocks[t["target"]]
+        if not nx["cleanup"] and nx["term"]["k"] == "switch" and nx["stmts"] and len(nx["stmts"]) <= 3:
+            fb = copy.deepcopy(nx)
+            fb["id"] = len(blocks)
+            fb["stmts"] = copy.deepcopy(ab["stmts"]) + fb["stmts"]
+            fb["origin"] = ab.get("origin")
+            fb["orig_bb"] = ab.get("orig_bb") or [f.get("_name", "?"), arm]
+            fb["threaded"] = "fused-arm"
+            blocks.append(fb)
+            r = _nested_arm(f, fb["id"], pay, hname)
+            return r
     if ab["cleanup"] or t["k"] != "switch" or not ab["stmts"]:
         return None
     last = ab["stmts"][-1]
@@ -805,10 +1011,51 @@ def _ctor_of(views, path):
     return None
 
 
+def _split_top(s):
+    """split `A<..>, B<..>` at top-level commas"""
+    out, depth, cur = [], 0, ""
+    for ch in s:
+        if ch == "<":
+            depth += 1
+        elif ch == ">":
+            depth -= 1
+        if ch == "," and depth == 0:
+            out.append(cur.strip())
+            cur = ""
+        else:
+            cur += ch
+    if cur.strip():
+        out.append(cur.strip())
+    return out
+
+
+def _transpose_gargs(t):
+    """[T, E] of a transpose call written as a function item (`Result::<Option<T>, E>::transpose`): recovered from the path"""
+    if t.get("gargs"):
+        return
+    full = t.get("callee_full") or ""
+    m = re.match(r"^(?:std|core)::(result::Result|option::Option)::<(.*)>::transpose$", full)
+    if not m:
+        return
+    parts = _split_top(m.group(2))
+    try:
+        if m.group(1) == "result::Result" and len(parts) == 2:
+            inner = re.match(r"^(?:std|core)::option::Option<(.*)>$", parts[0])
+            if inner:
+                t["gargs"] = [inner.group(1), parts[1]]
+        elif m.group(1) == "option::Option" and len(parts) == 1:
+            inner = re.match(r"^(?:std|core)::result::Result<(.*)>$", parts[0])
+            if inner and len(_split_top(inner.group(1))) == 2:
+                t["gargs"] = _split_top(inner.group(1))
+    except Exception:
+        pass
+
+
 def _desugar_transpose(f, bid, pending):
     """Option<Result<T, E>>::transpose: None => Ok(None), Some(Ok(v)) => Ok(Some(v)), Some(Err(e)) => Err(e)"""
     b = f["blocks"][bid]
     t = b["term"]
+    _transpose_gargs(t)
     if t.get("self_adt") == "std::result::Result" and t.get("name") == "transpose" and t.get("resolved_crate") == "core" and len(t["args"]) == 1 and t.get("target") is not None:
         return _desugar_transpose_result(f, bid, pending)
     if t.get("self_adt") != "std::option::Option" or t.get("name") != "transpose" or t.get("resolved_crate") != "core" or len(t["args"]) != 1 or t.get("target") is None:
@@ -1179,10 +1426,12 @@ def _fnitem_call(views, fnitem, args, dest, target, line, unwind):
         if "::" in plain:
             fsty = plain.rsplit("::", 1)[0]
     local_fn = fnitem["fn"] in views.raw
+    plain_ = _strip_generics(full)
     return {"k": "call", "callee": fnitem["fn"], "callee_full": full, "name": fname, "resolved": fnitem["fn"] if local_fn else full, "resolved_full": full,
             "resolved_local": local_fn, "callee_local": local_fn, "args": args, "dest": dest, "target": target, "unwind": unwind, "line": line,
             "exp": None, "synth": True, "gargs": [], "trait": ftrait, "self_ty": fsty, "self_adt": (fsty or "").split("<")[0] or None,
-            "callee_crate": None, "resolved_crate": None, "instance_kind": "Item", "ret_never": False}
+            "callee_crate": None, "resolved_crate": ("core" if (not local_fn and plain_.startswith(("std::option::", "std::result::", "core::option::", "core::result::"))) else None),
+            "instance_kind": "Item", "ret_never": False}
 
 
 def _desugar_pipeline(views, f, bid, depth, stack):
@@ -1287,7 +1536,10 @@ def _desugar_pipeline(views, f, bid, depth, stack):
         if kind == "map" and len(stages) == 1 and sk in ("collect", "extend") and mode == "vec" and not wrapped and _alias_mapper(views.raw[cname]):
             return False  # `.map(|s| s.as_str())`: the adaptor is an alias of the source sequence, not a loop worth spelling out
         h = views.get(cname, depth + 1, stack + (f.get("_name"),))
-        if len(h["locals"]) < 3 or h.get("arg_count") != 2:
+        if tcall.get("nullary_mapper"):
+            if h.get("arg_count") != 1:
+                return False
+        elif len(h["locals"]) < 3 or h.get("arg_count") != 2:
             return False
         total += len(h["blocks"]) + 8
         mappers.append(("closure", cname, h, cpl["local"]))
@@ -1326,7 +1578,9 @@ def _desugar_pipeline(views, f, bid, depth, stack):
     hoisted = []
     for cb in chain_blocks[1:]:
         hoisted.extend(blocks[cb]["stmts"])
-    item_ty = mappers[0][2]["locals"][2]["ty"] if mappers and mappers[0][0] == "closure" else "?"
+    item_ty = mappers[0][2]["locals"][2]["ty"] if mappers and mappers[0][0] == "closure" and len(mappers[0][2]["locals"]) > 2 and not stages[0][2].get("nullary_mapper") else "?"
+    if stages and stages[0][2].get("nullary_mapper"):
+        item_ty = "usize"
     if stages and stages[0][0] == "filter" and item_ty.startswith("&"):
         item_ty = item_ty[1:]
     o = _new_local(f, "std::option::Option<%s>" % item_ty, "pipeline-next")
@@ -1436,7 +1690,8 @@ def _desugar_pipeline(views, f, bid, depth, stack):
                 rc = _new_local(f, cty, "pipeline-closure-ref")
                 cstm.append(mk(pl(rc), {"ref": pl(clocal), "mut": cty.startswith("&mut")}))
                 carg = {"move": pl(rc)}
-            call = dict(call_base, callee=a, name="call_mut", resolved=a, resolved_local=True, args=[carg, arg], dest=rdest, target=rtarget, trait=None, self_ty=None, self_adt=None)
+            call = dict(call_base, callee=a, name="call_mut", resolved=a, resolved_local=True, args=([carg] if stages[si][2].get("nullary_mapper") else [carg, arg]), dest=rdest, target=rtarget,
+                        trait=None, self_ty=None, self_adt=None)
             Bc = _new_block(f, cstm, call, "pipeline-body")
             to_splice.append((Bc, h, a, rdest["local"], si == len(stages) - 1 and kind == "map", rtarget))
         cont = Bc
@@ -1509,7 +1764,14 @@ class Views:
             pending = []
             for bid in own_ids:
                 try:
+                    _canon_repeat_with_take(f, bid)
+                except Exception:
+                    pass
+            for bid in own_ids:
+                try:
                     _canon_collect_value(f, bid)
+                    _canon_extend_option(f, bid)
+                    _canon_extend_array(f, bid)
                 except Exception:
                     pass
             for bid in own_ids:
@@ -1531,6 +1793,19 @@ class Views:
                         _desugar_pipeline(self, f, bid, depth, stack)
                     except Exception:
                         pass
+            # function-item stages of a pipeline (`.filter_map(Result::transpose)`, `.map(Option::ok_or ..)`) became ordinary calls in new
+            # blocks: rewrite those that are combinators / transposes too
+            for bid in [b["id"] for b in f["blocks"] if b["id"] not in set(own_ids) and not b["cleanup"]]:
+                tt = f["blocks"][bid]["term"]
+                if tt["k"] != "call" or not tt.get("synth"):
+                    continue
+                try:
+                    if (tt.get("self_adt"), tt.get("name")) in COMBINATORS:
+                        _desugar_combinator(self, f, bid, depth, stack, pending)
+                    elif tt.get("name") == "transpose":
+                        _desugar_transpose(f, bid, pending)
+                except Exception:
+                    pass
             # thread re-dispatches on combinator results, innermost (latest) first so that chained combinators compose
             for (target, first_new, retloc, label) in pending:
                 try:
@@ -1567,6 +1842,11 @@ class Views:
             # with None and once with Some): the parameter copy has one definition, so the dispatch is decided at that call site
             try:
                 _resolve_unique_def_switches(f)
+            except Exception:
+                pass
+            # `if !matches!(..)` / `.filter(|x| !(..))`: switchInt(!m) is switchInt(m) with the arms exchanged
+            try:
+                _fold_not_switches(f)
             except Exception:
                 pass
             # `matches!(x, P if g)` / `let ok = if c { true } else { false }`: a bool temporary assigned constants in the arms and tested right
